@@ -71,7 +71,7 @@ PROPS = {
     'C03': dict(
         gens=dict(
             quick=V1_QUICK + g('stream', v2good=60, v2corrupt=60, v2ctrl=300, v2len=120, mixed=60) + TLV_QUICK
-            + g('stream', bigtrail=3) + g('builder', bseq=60, rebuild=30, bwire=20) + g('writer', wvals=60, wints=1, wbig=1, wpersist=10) + g('format', fmtshapes=60, fmtrand=60)
+            + g('stream', bigtrail=3) + g('builder', bseq=60, rebuild=30, bwire=20) + g('writer', wvals=60, wints=1, wbig=1, wpersist=10, wraw=6) + g('format', fmtshapes=60, fmtrand=60)
             + g('convert', cvrand=66),
             thorough=V1_THOROUGH + V2_THOROUGH + TLV_THOROUGH + g('builder', bseq=3000, rebuild=1000, bwire=500)
             + g('writer', wvals=3000, wints=20, wtlv=2) + g('format', fmtshapes=6561, fmtrand=5000) + g('convert', cvrand=2200)),
@@ -187,7 +187,7 @@ PROPS = {
         rule='constructor / conversion calls with pairwise distinct arguments; every event is non-trivial',
     ),
     'C20': dict(
-        gens=dict(quick=g('writer', wvals=200, wints=2, wtlv=1, wbig=1, wpersist=30, wlimit=10), thorough=g('writer', wvals=8000, wints=60, wtlv=4, wbig=1, wpersist=900, wlimit=300)),
+        gens=dict(quick=g('writer', wvals=200, wints=2, wtlv=1, wbig=1, wpersist=30, wlimit=10, wraw=10), thorough=g('writer', wvals=8000, wints=60, wtlv=4, wbig=1, wpersist=900, wlimit=300, wraw=300)),
         models=[MC_WRITER],
         rule='values of every WriteToHeader type written into empty and pre-filled writers; non-trivial = writer at '
              'most 4096 bytes long (well below its limit); distinct = distinct (prefill, value)',
